@@ -27,7 +27,7 @@ NOTES = {
                 "fails unchanged (missing list, no room); in a zeroed buffer of size_of(n) init succeeds and reads back exactly while one byte less fails; lists of other instructions read the same before and "
                 "after; a second init is rejected; malformed bytes give errors, not panics.",
         "design_ref": "§5 C12",
-        "note": TB + "fail-safety on openable but non-canonical accounts (garbage behind the terminator) is covered by the stream, not by a theorem.",
+        "note": TB + "on every account that opens (canonical or not) init and update either succeed or return an error with the bytes bit-identical, and reading never panics on any bytes (C12_openable, C12_read_total); what a *successful* init/update on a non-canonical account reads back is not claimed, as in the property.",
         "technique": "Lean 4 theorem (composition of two refinements, all account states / config lists) + differential correspondence on raw buffers with read-back oracle",
     },
     "C06": {
@@ -83,7 +83,8 @@ NOTES = {
     "C04": {
         "text": "Kernel-checked on every byte string (reachable or not): a failed alloc / init_value / alloc_and_pack / realloc returns bit-identical bytes (the model writes the header only after the "
                 "length conversion and room check, as the repaired code does; with the old order the theorem is false: 20 zero bytes, length 9), so an openable buffer stays openable; a failed var-len pack "
-                "changes no byte outside the entry's value range; on every buffer that opens, alloc and realloc with a genuine tag never panic (canonical or not).",
+                "changes no byte outside the entry's value range; on every buffer that opens, alloc, init_value, alloc_and_pack and realloc with a genuine tag never panic (canonical or not), and writes through the "
+                "mutable views and var-len packs never panic on any byte string at all.",
         "design_ref": "§5 C04",
         "note": TB + "after a *successful* operation on a non-canonical buffer (garbage behind the terminator) nothing is claimed, as in the property.",
         "technique": "Lean 4 theorem over all byte strings (kernel-checked) + differential correspondence injecting each failing operation at every reached state",
@@ -157,7 +158,9 @@ NOTES = {
     },
     "C16": {
         "text": "Kernel-checked theorems over all byte strings: whenever the (modelled) SPL Token Pack codec or Token-2022 StateWithExtensions::unpack accepts a buffer, "
-                "the model of the generic parser returns the same mint/owner/amount (supply/decimals); uninitialised never parses; base layouts parse identically under both ids. "
+                "the model of the generic parser returns the same mint/owner/amount (supply/decimals); uninitialised never parses; base layouts parse identically under both ids; and from states: every "
+                "well-formed initialised account / mint state (any keys, amounts, option tags, initialised or frozen) packed by the reference codec round-trips through it and parses to its fields under both "
+                "ids, and under Token-2022 also behind the account-type marker with extension data of any length (355 excepted). "
                 "The model is tied to /repo by regenerated offsets/ids and by a differential stream that also validates the reference-codec model against the real interface crates.",
         "design_ref": "§5 C16",
         "note": TB + "the reference codecs (spl-token-interface, spl-token-2022-interface) are modelled in SplModel/TokenRef.lean and validated by the stream, not verified.",
